@@ -328,17 +328,22 @@ class PanicAnalysis:
                     continue
                 return n
 
-        def fn_loops(n, depth=0):
+        from .common import exit_on_channel_close
+
+        def fn_loops(n, depth=0, owner=None):
+            owner = owner or a.fn
             t = tail_of(n)
             if t["k"] == "loop":
                 exits = [x for x in ir.walk(t["body"], into_closures=False)
                          if (x["k"] == "break" and self._break_targets(t, x)) or x["k"] == "ret"]
-                return (not exits), ("loop without exit" if not exits else "loop has exit at %s" % exits[0]["sp"])
+                exits = [x for x in exits if not exit_on_channel_close(self.env, owner, t, x)]
+                return (not exits), ("loop without exit (other than on a closed channel)" if not exits else "loop has exit at %s" % exits[0]["sp"])
             if t["k"] == "while":
                 c = t["c"]
                 if c["k"] == "let" and any(p in (MPSC_RECV,) for x in ir.walk(c["init"]) for p in callee_paths(x)):
                     rets = [x for x in ir.walk(t["body"], into_closures=False) if x["k"] in ("ret",) or
                             (x["k"] == "break" and self._break_targets(t, x))]
+                    rets = [x for x in rets if not exit_on_channel_close(self.env, owner, t, x)]
                     return (not rets), "while-let over channel recv" + ("" if not rets else " with exit at %s" % rets[0]["sp"])
                 return False, "while loop with data-dependent exit"
             if t["k"] in ("mcall", "call") and depth < 4:
@@ -346,7 +351,7 @@ class PanicAnalysis:
                     g = prog.fns.get(p)
                     if g is not None:
                         # early returns anywhere in the callee before its final loop also end the task
-                        ok, why = fn_loops(g.body, depth + 1)
+                        ok, why = fn_loops(g.body, depth + 1, g)
                         if ok:
                             tl = tail_of(g.body)
                             pre = [x for x in ir.walk(g.body, into_closures=False)
